@@ -34,7 +34,7 @@ type c13Case struct {
 }
 
 var c13Mutants = []string{"height+1", "height+5", "height-1", "prev-earlier", "prev-random", "time-equal", "time-earlier",
-	"blockroot-random", "blockroot-prev", "stateroot", "txroot"}
+	"blockroot-random", "blockroot-prev", "blockroot-queried", "blockroot-queried", "stateroot", "txroot"}
 
 func genC13(t *rapid.T) c13Case {
 	genOp := rapid.Custom(func(t *rapid.T) c13Op {
@@ -250,6 +250,36 @@ func runC13(ctx *ev.Ctx, c c13Case) {
 			case "blockroot-prev":
 				r := tip.Header.BlockRoot
 				o.BlockRoot = &r
+			case "blockroot-queried":
+				// what consensus does while it weighs a competing proposal: ask the ledger for the block root the next block
+				// would carry if its parent were X (X is not the tip). The answer must be the accumulator root over the
+				// committed hashes below the tip plus X (own RFC 6962 hash), and a block carrying THAT root on the real
+				// parent is not a valid successor.
+				x := common.Uint256{byte(op.Arg), byte(op.Arg >> 8), 0x11, byte(len(w.model))}
+				if x == tip.Hash() {
+					continue
+				}
+				next := uint32(len(w.model))
+				var zero common.Uint256
+				leaves := [][]byte{zero[:]}
+				for _, mb := range w.model[:len(w.model)-1] {
+					hh := mb.Hash()
+					leaves = append(leaves, append([]byte(nil), hh[:]...))
+				}
+				leaves = append(leaves, x[:])
+				want := lworld.MTH(leaves)
+				for rep := 0; rep < 1+op.Arg%2; rep++ {
+					if got := ch.Store.GetBlockRootWithPreBlockHashes(next, []common.Uint256{x}); got != want {
+						ctx.Failf("op %d: GetBlockRootWithPreBlockHashes(%d, [X]) = %x, the accumulator root over the %d committed predecessors plus X is %x", i, next, got[:6], len(leaves)-1, want[:6])
+					}
+				}
+				// and the real question right after it: the root for the real parent
+				if op.Arg%3 == 0 {
+					if got, ref := ch.Store.GetBlockRootWithPreBlockHashes(next, []common.Uint256{tip.Hash()}), lworld.RefBlockRoot(w.model, next); got != ref {
+						ctx.Failf("op %d: GetBlockRootWithPreBlockHashes(%d, [tip]) = %x after a query for another parent, reference %x", i, next, got[:6], ref[:6])
+					}
+				}
+				o.BlockRoot = &want
 			case "stateroot":
 				if op.Op == "badheader" || op.Via != "addblock" {
 					continue
